@@ -60,6 +60,9 @@ type Scenario struct {
 	// inside seam event k.
 	CancelAt   int    `json:"cancel_at,omitempty"`
 	DeadlineNs int64  `json:"deadline_ns,omitempty"` // simulated-clock deadline (0 = none)
+	// CancelAtCallback k>0: cancel() is called inside the k-th callback of listener 0 (Begin, Evaluate
+	// and Execute notifications counted together): cancellation from inside a listener.
+	CancelAtCallback int `json:"cancel_at_callback,omitempty"`
 	LatSeed    uint64 `json:"lat_seed,omitempty"`
 
 	// Sim H(a)
